@@ -109,7 +109,8 @@ def read_expr(src, skip_envs=(), tolerance=0, mode=MODE_NON_MATH):
         # if we are in "special" mode, we do not attempt to match the `\begin`
         # and `\end`
         elif name == 'begin' and mode != MODE_SPECIAL:
-            assert args, 'Begin command must be followed by an env name.'
+            assert args and isinstance(args[0], BraceGroup), \
+                'Begin command must be followed by an env name.'
             expr = TexNamedEnv(
                 args[0].string, args=args[1:], position=c.position)
             if expr.name in MATH_ENV_NAMES:
